@@ -42,10 +42,12 @@ def bind_repo():
 # --------------------------------------------------------------------------
 class R(object):
   """Result of one case.  viol: None or dict(key, what, expected, observed)."""
-  __slots__ = ("viol", "nontrivial", "outcome", "n", "extra")
-  def __init__(self, viol=None, nontrivial=True, outcome=None, n=1, extra=None):
+  __slots__ = ("viol", "nontrivial", "outcome", "n", "extra", "succ")
+  def __init__(self, viol=None, nontrivial=True, outcome=None, n=1, extra=None,
+               succ=None):
     self.viol, self.nontrivial, self.outcome, self.n = viol, nontrivial, outcome, n
-    self.extra = extra
+    self.extra = extra      # Counter-like: named counters summed into evidence
+    self.succ = succ        # explorers: {canonical successor state: history}
 
 
 def bad(key, what, expected=None, observed=None, nontrivial=True, outcome=None):
@@ -119,7 +121,8 @@ def _work(args):
   kname, cases = args
   kind = _MODULE.KINDS[kname]
   agg = {"n": 0, "nontrivial": set(), "outcomes": collections.Counter(),
-         "viols": [], "first": None, "extra": collections.Counter()}
+         "viols": [], "first": None, "extra": collections.Counter(),
+         "succ": {}}
   for shard in cases:
     subs = kind.expand(shard) if kind.expand else (shard,)
     for case in subs:
@@ -133,6 +136,9 @@ def _work(args):
         agg["outcomes"][r.outcome] += 1
       if r.extra:
         agg["extra"].update(r.extra)
+      if r.succ:
+        for k, h in r.succ.items():
+          agg["succ"].setdefault(k, h)
       if r.viol is not None and len(agg["viols"]) < 50:
         agg["viols"].append((case, r.viol))
   if len(agg["outcomes"]) > 5000:
@@ -193,7 +199,7 @@ class Run(object):
       self.pool.join()
       self.pool = None
 
-  def run_kind(self, kname, cases=None):
+  def run_kind(self, kname, cases=None, quiet=False):
     kind = self.module.KINDS[kname]
     t0 = time.time()
     if cases is None:
@@ -201,7 +207,7 @@ class Run(object):
     st = self.per_kind.setdefault(kname, {
         "evaluations": 0, "nontrivial": set(), "outcomes": collections.Counter(),
         "violations": 0, "wall_s": 0.0, "rule": kind.rule,
-        "extra": collections.Counter()})
+        "extra": collections.Counter(), "succ": {}})
     jobs = ((kname, c) for c in chunks_of(cases, kind.chunk))
     if NPROC == 1:
       _init_worker(self.module.__name__)
@@ -214,6 +220,8 @@ class Run(object):
       st["nontrivial"] |= agg["nontrivial"]
       st["outcomes"].update(agg["outcomes"])
       st["extra"].update(agg["extra"])
+      for k, h in agg["succ"].items():
+        st["succ"].setdefault(k, h)
       if agg["first"] is not None and nsamp < 3:
         nsamp += 1
         self.samples.append({"kind": kname, "case": agg["first"]})
@@ -221,6 +229,8 @@ class Run(object):
         st["violations"] += 1
         self.viols.append((kname, case, v))
     st["wall_s"] += time.time() - t0
+    if quiet:
+      return st
     print("  %-28s %9d cases  %8d non-trivial  %5d outcomes  %3d viol  %6.1fs"
           % (kname, st["evaluations"], len(st["nontrivial"]),
              len(st["outcomes"]), st["violations"], time.time() - t0))
